@@ -80,6 +80,8 @@ def run(ck: Checker, prog: Program, tier: str):
         ck.guard(c15.check_constructors, ck, prog, [prog.cls(cname) for cname in ("Settings", "PreProcessingSettings", "HvsrPreProcessingSettings", "PsdPreProcessingSettings")])
     with ck.borrow(c17, "C04.R3+"):
         ck.guard(c17._r3, ck, prog)
+    from .common import check_identity_comparisons as _cic
+    ck.guard(_cic, ck, prog, "C04.R1", "C04")
 
 
 INVARIANT_FAMILIES = {
